@@ -81,3 +81,44 @@ func VerifC16_Fallback() {
 		vfReach("agree")
 	}
 }
+
+// VerifC16_FallbackSymbolic: the same decision table for every input of the form
+// job=<v> with v any 1-2 (quick) / 1-3 (thorough) bytes (valid UTF-8 or not: quotes,
+// backslashes, every kind of white space, multi-byte characters), both real parsers and
+// the classic parser's regular expression run symbolically. Both reject => error; only
+// one accepts => its result; both accept => the classic result wherever the two differ.
+//
+//vf:quick unwind=200 decisions=1500 paths=2000000 arith=bv steps=30000000
+//vf:thorough unwind=300 decisions=2500 paths=20000000 arith=bv steps=80000000
+//vf:expect reach=both-reject reach=classic-only reach=agree reach=disagree
+func VerifC16_FallbackSymbolic() {
+	l := promslog.NewNopLogger()
+	fb := FallbackMatcherParser(l)
+	n := 1 + vfChoice("len", 2+vfTier())
+	v := vfString("v", n)
+	// (job=~... would make v a regular expression: patterns are not symbolic, see Fallback)
+	vfAssume(v[0] != '~')
+	in := "job=" + v
+	nm, nerr := parse.Matcher(in)
+	cm, cerr := labels.ParseMatcher(in)
+	m, err := fb(in, "test")
+	same := func(a, b *labels.Matcher) bool {
+		return a != nil && b != nil && a.Type == b.Type && a.Name == b.Name && a.Value == b.Value
+	}
+	switch {
+	case nerr != nil && cerr != nil:
+		vfAssert("both-reject-is-an-error", err != nil)
+		vfReach("both-reject")
+	case nerr != nil:
+		vfAssert("classic-only-still-accepted-with-classic-result", err == nil && same(m, cm))
+		vfReach("classic-only")
+	case cerr != nil:
+		vfAssert("utf8-only-accepted", err == nil && same(m, nm))
+	case !same(nm, cm):
+		vfAssert("disagreement-yields-classic", err == nil && same(m, cm))
+		vfReach("disagree")
+	default:
+		vfAssert("agreement-yields-common", err == nil && same(m, nm))
+		vfReach("agree")
+	}
+}
